@@ -266,11 +266,11 @@ def default_values():
     """generic input values used by replays when the counter-model's own parameters give an SDP the real numeric
     solver cannot solve (the structural choices of the counterexample are kept)"""
     base = dict(mu=0.1, L=1.0, M=1.0, D=1.0, beta=1.0, rho=0.5, R=1.0, w_h=1.0, h_mu=0.1, h_L=2.0, h_M=1.0, h_D=1.0,
-                h_beta=1.0, h_rho=0.5)
+                h_beta=1.0, h_rho=0.5, R2=2.0, lnew=2.0, tol=1e-4, a_before=0.5, a_after=-0.5, L0=1.0, L1=2.0)
     for i in range(4):
         base.update({"gamma%d" % i: 0.5, "eps%d" % i: 0.1, "c%d" % i: 1.0, "d%d" % i: 0.5, "l%d" % i: 2.0})
     alt = dict(base)
-    alt.update(dict(mu=0.25, L=2.0, R=2.0, w_h=0.5))
+    alt.update(dict(mu=0.25, L=2.0, R=2.0, w_h=0.5, R2=0.5, lnew=3.0, L0=2.0, L1=1.0))
     for i in range(4):
         alt.update({"gamma%d" % i: 0.25, "l%d" % i: 3.0, "c%d" % i: 2.0, "d%d" % i: -0.5})
     return [base, alt]
